@@ -34,6 +34,11 @@ def gen_h1(rng):
     return bins, freq, err2, ints
 
 def gen(rng, n, tier):
+    # a fixed sweep first: every helper name of every backend module must be refused as a plot kind (picks 1..13 avoid the
+    # made-up names, which sit at the multiples of 4 ... except 4, 8, 12 - covered by the random stream below)
+    for be in ("matplotlib", "plotly", "ascii"):
+        for pick in (1, 2, 3, 5, 6, 7, 9, 10, 11, 13, 14, 15, 17):
+            yield [["bucket", "refusal/unknown_kind"], ["what", "refusal"], ["why", "unknown_kind"], ["backend", be], ["ndim", 1 + pick % 2], ["pick", pick]]
     for i in range(n):
         r = rng.random()
         if r < 0.55:
@@ -96,10 +101,10 @@ def gen(rng, n, tier):
             lo = fl(rng.choice([0, -3.5, 10, 59, 60.0, -120, 3599.9]) * rng.choice([1, 1, 60, 3600]))
             hi = fl(float(lo) + float(unit) * rng.uniform(0.5, 9))
             yield [["bucket", "ticks/" + level], ["what", "ticks"], ["level", level], ["mult", fl(mult) if isinstance(mult, float) else mult], ["unit", fl(unit)], ["lo", lo], ["hi", hi]]
-        elif r < 0.95:
+        elif r < 0.955:
             k = rng.choice(["wrong_dim", "wrong_dim", "unknown_backend", "unknown_kind", "unknown_kind"])
             yield [["bucket", "refusal/" + k], ["what", "refusal"], ["why", k], ["backend", rng.choice(["matplotlib", "plotly", "ascii"])], ["ndim", rng.choice([1, 2, 3])],
-                   ["pick", rng.randint(0, 20)]]
+                   ["pick", rng.randint(0, 60)]]
         else:
             bins, freq, err2, ints = gen_h1(rng)
             if all(f == 0 for f in freq): freq[0] = 1
@@ -317,7 +322,7 @@ def _refusal(d):
         elif why == "unknown_kind":
             # made-up names and names of things that live in the backend module but are no plot kinds
             helpers = ["get_data", "get_err_data", "get_value_format", "check_ndim", "register", "pop_many", "pop_kwargs_with_prefix", "types", "dims", "np", "HistogramCollection", "TimeTickHandler", "__name__"]
-            name = "pie_%d" % d["pick"] if d["pick"] % 2 == 0 else helpers[(d["pick"] // 2) % len(helpers)]
+            name = "pie_%d" % d["pick"] if d["pick"] % 4 == 0 else helpers[d["pick"] % len(helpers)]
             hs[d["ndim"]].plot(name, backend=d["backend"])
         else:
             be = pp.backends[d["backend"]]
